@@ -1356,6 +1356,55 @@ func (x *extractor) authFacts() (facts []authFact) {
 			return true
 		})
 	}
+	// InitAuth: the users parameter goes into the module as it is.
+	if ia, ok := home.Types.Scope().Lookup("InitAuth").(*types.Func); ok && x.decls[ia] != nil {
+		fi := x.decls[ia]
+		finfo := fi.pkg.TypesInfo
+		var usersParam types.Object
+		for _, p := range paramObjs(finfo, fi.decl.Type) {
+			if p != nil && p.Name() == "users" {
+				usersParam = p
+			}
+		}
+		stored, writes := token.NoPos, 0
+		ast.Inspect(fi.decl.Body, func(n ast.Node) bool {
+			switch v := n.(type) {
+			case *ast.CompositeLit:
+				if t := finfo.TypeOf(v); t != nil && strings.HasSuffix(t.String(), "/internal/home.Auth") {
+					for _, el := range v.Elts {
+						kv, isKV := el.(*ast.KeyValueExpr)
+						if !isKV {
+							continue
+						}
+						if k, isID := kv.Key.(*ast.Ident); isID && k.Name == "users" {
+							if id, isVal := unparen(kv.Value).(*ast.Ident); isVal && usersParam != nil && finfo.Uses[id] == usersParam {
+								stored = kv.Pos()
+							} else {
+								writes++
+								add("bad", "InitAuth does not store its users parameter as it is: "+exprString(x.fset, kv.Value), kv.Pos())
+							}
+						}
+					}
+				}
+			case *ast.AssignStmt:
+				for _, lhs := range v.Lhs {
+					if sel, isSel := unparen(lhs).(*ast.SelectorExpr); isSel && sel.Sel.Name == "users" {
+						if s := finfo.Selections[sel]; s != nil && strings.HasSuffix(s.Recv().String(), "/internal/home.Auth") {
+							writes++
+							add("bad", "InitAuth rewrites the users of the module", v.Pos())
+						}
+					}
+				}
+			}
+
+			return true
+		})
+		if stored != token.NoPos && writes == 0 {
+			add("usersStoredAsGiven", "", stored)
+		}
+	} else {
+		add("bad", "InitAuth not found", token.NoPos)
+	}
 	sort.SliceStable(facts, func(i, j int) bool {
 		if facts[i].File != facts[j].File {
 			return facts[i].File < facts[j].File
